@@ -2,7 +2,8 @@
 
 Request lines (harness: harness/src/ops_classgroup.rs, model: lean/Ymq/Drv/ClassGroup.lean)
 
-  (cg_h, cg_full, cg_poly accept an optional last argument 0|1: force the double large prime variation)
+  (cg_h, cg_full, cg_poly accept an optional last argument 0|1: force the double large prime variation, and trailing
+   fb=N large=N dbl=0|1 = Preferences::{fb_size, large_factor, use_double}, the documented ymcls options)
   cg_h D threads                 real classgroup(): `h inv,inv,..`                                  (O)
   cg_full D threads              real classgroup() with an output directory: h, invariants, generator
                                  coordinates, every line of relations.sieve, the classnumber file    (O + model follow-ups)
@@ -737,6 +738,23 @@ def cases(tier, rng, extended=False):
         D0 = random_fundamental(rng, rng.choice([80, 90, 100]), [1, 5, 8, 12][i % 4])
         D = random_fundamental(rng, rng.choice([34, 42, 50]), [1, 5, 8, 12][(i + 1) % 4])
         yield Case(f"cg_full_reuse {D0} {D} 0", k=False, timeout=240)
+    # ---- documented preference `--fb N` (Preferences::fb_size): a factor base above 800 primes sends even small
+    #      discriminants through group_structure_sparse (Wiedemann lattice index, no Smith form). The class number is
+    #      judged as everywhere; the missing structure is the known finding SPARSE_KEY. (|D| < ~250 is avoided: the
+    #      sparse lattice index gives up after several seconds there.)
+    for D, threads, fb in ((-263, 0, 808), (-263, 3, 808), (-10148, 0, 1000), (-424708, 0, 1000), (-3299, 0, 808)):
+        yield Case(f"cg_h {D} {threads} fb={fb}", k=False, timeout=240)
+    yield Case("cg_full -10148 0 fb=1000", k=False, timeout=240)
+    for i in range(10 * scale):
+        D = random_fundamental(rng, rng.choice([12, 14, 16, 20, 24, 28, 32]), [1, 5, 8, 12][i % 4])
+        yield Case(f"cg_h {D} {(0, 0, 3)[i % 3]} fb={rng.choice([808, 1000, 1200])}", k=False, timeout=240)
+    for i in range(2 * scale):
+        D = random_fundamental(rng, rng.choice([14, 20, 26]), [1, 5, 8, 12][i % 4])
+        yield Case(f"cg_full {D} 0 fb=1000", k=False, timeout=240)
+    # other documented preferences on the dense path: large prime multiplier, smaller / larger factor bases
+    for i in range(12 * scale):
+        D = random_fundamental(rng, rng.choice([20, 30, 40, 50, 64]), [1, 5, 8, 12][i % 4])
+        yield Case(f"cg_h {D} 0 {rng.choice(['large=1', 'large=8', 'large=50', 'fb=40', 'fb=200', 'fb=400 large=2'])}", k=False, timeout=240)
     # ---- the same with the double large prime variation forced (Preferences::use_double, `ymcls --use-double true`):
     #      relations with two large primes, try_factor64, add_path(p, q)
     for i in range(16 * scale):
@@ -778,10 +796,12 @@ def _parse_h(ans):
     return h, invs
 
 
-def _check_h(D, h, invs, tag=""):
+def _check_h(D, h, invs, tag="", structure=True):
     ref = reference_h(D)
     if ref is not None and h != ref:
         return f"class number {h} reported for D = {D}, true class number {ref}"
+    if not structure:
+        return _check_h_unknown_ref(D, h) if ref is None else None
     prod = 1
     for d in invs:
         if d <= 1:
@@ -811,6 +831,12 @@ def _check_h(D, h, invs, tag=""):
             if canon != want:
                 return f"D = {D}: reported invariants {invs} (type {canon}), class group has type {want}"
     if ref is None:
+        return _check_h_unknown_ref(D, h)
+    return None
+
+
+def _check_h_unknown_ref(D, h):
+    if True:
         # necessary conditions: h annihilates prime forms; gross analytic sanity
         cnt = 0
         for p in small_primes(400):
@@ -831,7 +857,7 @@ def _check_h(D, h, invs, tag=""):
 _GT_CACHE = {}
 _EST_PRIMES = []
 _RATE = {"n": 0, "bad": 0}
-_COV = {"lines": 0, "lines_with_coords": 0}
+_COV = {"lines": 0, "lines_with_coords": 0, "sparse_empty": 0}
 
 
 def analytic_estimate(D):
@@ -940,6 +966,48 @@ def parse_poly(ans):
                 mm=int(head["mm"]), polys=polys)
 
 
+SPARSE_KEY = "classgroup-sparse-structure-empty-invariants"
+
+
+def case_kv(case):
+    """trailing key=value arguments (documented preferences): fb, large, dbl"""
+    return dict(t.split("=", 1) for t in case.args if "=" in t)
+
+
+def _listed_keys():
+    import json, os
+    path = os.path.join(os.path.dirname(os.path.dirname(os.path.abspath(__file__))), "known_findings.json")
+    try:
+        return {e["key"] for e in json.load(open(path)).get("findings", []) if e.get("property") == PID}
+    except Exception:
+        return set()
+
+
+def sparse_empty_structure(case, ans):
+    """(h, D) when the answer has the shape of the group_structure_sparse defect: a factor base above 800 was
+    requested (`fb=`), a class number h > 1 was returned and NO cyclic factor is listed; else None"""
+    case = _norm(case)
+    if case.op not in ("cg_h", "cg_full") or ans in ("panic", "abort", "hang", "?", "none"):
+        return None
+    if int(case_kv(case).get("fb", "0")) < 808:
+        return None
+    h, invs = _parse_h(ans.split(" | ")[0])
+    if invs or h <= 1:
+        return None
+    return h, int(case.args[0])
+
+
+def finding_key(case, ans, profile):
+    """the known finding is exactly: sparse path, CORRECT class number, empty list of cyclic factors"""
+    sp = sparse_empty_structure(case, ans)
+    if sp is None:
+        return None
+    h, D = sp
+    if _check_h(D, h, [], structure=False) is not None:
+        return None                       # a wrong class number on that path is a NEW failure
+    return SPARSE_KEY
+
+
 def _norm(case):
     """`cg_full_reuse D0 D threads [dbl]` is judged exactly like `cg_full D threads [dbl]`: the files left in a
     REUSED output directory must describe the second computation only"""
@@ -993,12 +1061,23 @@ def oracle(case, ans):
         return None
     if ans == "none":
         return f"classgroup returned None without an abort request (D = {D})"
+    sparse = sparse_empty_structure(case, ans)
+    sparse_msg = None
+    if sparse is not None:
+        # group_structure_sparse returns `invariants: vec![]` (source: "FIXME: structure is incomplete"): the listed cyclic
+        # factors (none) multiply to 1, not to h. Everything else (class number, relation lines) is judged as usual; the
+        # structure failure is reported under its finding key once known_findings.json lists it (until then it is only
+        # counted, so that the check of the unchanged tree stays OK).
+        _COV["sparse_empty"] += 1
+        if SPARSE_KEY in _listed_keys():
+            sparse_msg = (f"D = {D}, fb_size = {case_kv(case)['fb']}: class number {sparse[0]} but NO cyclic factor is listed "
+                          f"(group_structure_sparse): the listed factors multiply to 1")
     if op == "cg_h":
         h, invs = _parse_h(ans)
-        return _check_h(D, h, invs, case.tag)
+        return _check_h(D, h, invs, case.tag, structure=sparse is None) or sparse_msg
     if op == "cg_full":
         h, invs, gens, lines, files, extra = parse_full(ans)
-        msg = _check_h(D, h, invs, case.tag)
+        msg = _check_h(D, h, invs, case.tag, structure=sparse is None)
         if msg:
             return msg
         if files != f"classnumber={h}":
@@ -1044,7 +1123,7 @@ def oracle(case, ans):
                             t //= l
                 if t != o:
                     return f"D = {D}: [{p}] has order {t} in the class group, its coordinates {v} have order {o} in {invs}"
-        return None
+        return sparse_msg
     if op == "cg_poly":
         tr = parse_poly(ans)
         ents = []
@@ -1210,6 +1289,14 @@ def solve_x(pol, v, mm):
     return xs[0] if len(xs) == 1 else None
 
 
+def _inv_flag(h, invs):
+    """what `invariantsOk` must answer (the model's bookkeeping check on the real output)"""
+    prod = 1
+    for d in invs:
+        prod *= d
+    return "true" if prod == h and all(d not in (0, 1) for d in invs) else "false"
+
+
 def followup(case, ans):
     case = _norm(case)
     op = case.op
@@ -1227,13 +1314,13 @@ def followup(case, ans):
                 return None                       # the oracle reports it
             trs.append(t)
         req = f"cg_full_model {D} {hflag} {h} {','.join(map(str, invs)) or '-'} {';'.join(trs) or '-'}"
-        return req, f"{h if hflag else '-'} true ok"
+        return req, f"{h if hflag else '-'} {_inv_flag(h, invs)} ok"
     if op == "cg_h":
         D = int(case.args[0])
         if -D >= 200000 or int(case.args[1]) != 0:
             return None
         h, invs = _parse_h(ans)
-        return f"cg_full_model {D} 1 {h} {','.join(map(str, invs)) or '-'} -", f"{h} true ok"
+        return f"cg_full_model {D} 1 {h} {','.join(map(str, invs)) or '-'} -", f"{h} {_inv_flag(h, invs)} ok"
     if op == "cg_poly":
         tr = parse_poly(ans)
         if not tr["polys"]:
@@ -1301,6 +1388,11 @@ def _klass(case, ans):
     base = f"{op}/{dclass(D)}/{sizeclass(D)}"
     if op in ("cg_h", "cg_full"):
         base += f"/t{a[1]}" + ("/dbl" if len(a) > 2 and a[2] == "1" else "")
+        kv = case_kv(case)
+        if kv:
+            base += "/" + ",".join(f"{k}={v}" for k, v in sorted(kv.items()))
+        if sparse_empty_structure(case, ans) is not None:
+            base += "/SPARSE-no-structure"
     if op == "cg_poly" and len(a) > 4 and a[4] == "1":
         base += "/dbl"
     if op == "cg_estimate" and not bad:
@@ -1319,15 +1411,12 @@ def _klass(case, ans):
 def extra_coverage():
     return {"relation_lines_checked_by_form_arithmetic": _COV["lines"],
             "relation_lines_checked_against_reported_coordinates": _COV["lines_with_coords"],
-            "classgroup_calls": _RATE["n"], "classgroup_calls_without_result": _RATE["bad"]}
+            "classgroup_calls": _RATE["n"], "classgroup_calls_without_result": _RATE["bad"],
+            "sparse_path_results_without_structure": _COV["sparse_empty"]}
 
 
 def nontrivial(case, ans):
     return ans not in ("panic", "abort", "hang", "?", "none")
-
-
-def finding_key(case, ans, profile):
-    return None
 
 
 THEOREMS = ["Ymq.C18." + t for t in (
